@@ -16,7 +16,7 @@ import (
 func sessionResult(prop string, tr *Trace, fs []Finding, nontrivial bool, sample any) drv.Result {
 	res := drv.Result{Verdict: drv.Held, Events: tr.eventCounts(), TraceHash: tr.abstract(), Nontrivial: nontrivial, Sample: sample, Checks: 1}
 	if tr.StartErr != "" {
-		return drv.Result{Verdict: drv.Inconclusive, Detail: "session did not start: " + tr.StartErr}
+		return drv.Result{Verdict: drv.Inconclusive, Detail: "session did not start: " + tr.StartErr, Events: map[string]int{}}
 	}
 	var own []Finding
 	for _, f := range fs {
